@@ -463,7 +463,7 @@ fn do_replace_definitions(workspace: &mut Workspace, params: &ReplaceDefinitions
       if let Ok(xml) = String::from_utf8(bytes) {
         match dmntk_model::parse(&xml) {
           Ok(definitions) => {
-            workspace.add(definitions)?;
+            workspace.replace(definitions)?;
             Ok(StatusResult {
               status: "definitions replaced".to_string(),
             })
